@@ -39,6 +39,7 @@ NumData(st) == Cardinality({i \in 1..Len(st) : IsDataOp(st[i].op)})
 Op(o) == [op |-> o, k |-> 0]
 Rd(k) == [op |-> "RD", k |-> k]
 Rl(k) == [op |-> "RL", k |-> k]
+Ja(k) == [op |-> "JA", k |-> k]
 
 NoCut == [frame |-> 0, part |-> "start", kind |-> "eof", with |-> FALSE, resume |-> FALSE]
 
@@ -130,6 +131,11 @@ Step ==
        [] o.op = "RA" -> DoRA(s, hist, "RA")
        [] o.op = "RL" -> DoRA(s, hist, "RA")
        [] o.op = "SRD" -> s' = s /\ hist' = hist
+       [] o.op = "JA" ->
+            LET j == JALoop(s, << >>, << >>, << >>, 0, o.k) IN
+            /\ s' = JANext(j, CanonErr(j.w))
+            /\ hist' = hist \o [i \in 1..Len(j.starts) |-> [op |-> "JA", res |-> "eom", start |-> j.starts[i], n |-> j.lens[i]]]
+                            \o << [op |-> "NR", res |-> IF j.w.res \in {"eom", "data"} THEN "starve" ELSE j.w.res, start |-> 0, n |-> 0] >>
        [] o.op = "RM" -> DoRM
   /\ pc' = pc + 1
   /\ UNCHANGED << cfg, fr, prog, cut, stream >>
@@ -178,7 +184,7 @@ Msgs == MsgsFrom(1, IF Bad = 0 THEN Len(fr) + 1 ELSE Bad, NoMsg, << >>)
 MsgAt(st) == LET c == {m \in Rng(Msgs) : m.start = st} IN
              IF c = {} THEN NoMsg ELSE CHOOSE m \in c : TRUE
 
-Completed(h) == h.op \in {"RM", "RA", "RF"} /\ h.res = "eom"
+Completed(h) == h.op \in {"RM", "RA", "RF", "JA"} /\ h.res = "eom"
 
 (* C03/C04/C05: whatever is reported complete is a message of the stream   *)
 (* that lies before the first violation, arrived completely, and is        *)
@@ -222,7 +228,7 @@ InvOverLimit ==
 
 (* C03: a program of ReadMessage calls on a fault-free conformant stream   *)
 (* yields exactly the messages of the stream.                              *)
-AllRM == \A i \in 1..Len(prog) : prog[i].op = "RM"
+AllRM == \A i \in 1..Len(prog) : prog[i].op \in {"RM", "JA"}
 Conformant == Bad = 0 /\ cut.frame = 0 /\ \A i \in 1..Len(fr) : fr[i].lk = "n" /\ fr[i].arr = "full"
 InvDecode ==
   (pc > Len(prog) /\ AllRM /\ Conformant /\ (Lim = 0 \/ AllWithin) /\ cfg.hmode # "err") =>
@@ -230,5 +236,5 @@ InvDecode ==
          want == SelectSeq(Msgs, LAMBDA m : m.complete)
          k == Min(Len(want), Len(prog))
      IN /\ Len(done) >= Min(k, Len(want))
-        /\ \A i \in 1..Len(done) : done[i].start = want[i].start /\ done[i].n = want[i].len
+        /\ \A i \in 1..Len(done) : done[i].start = want[i].start /\ (done[i].op = "JA" \/ done[i].n = want[i].len)
 =============================================================================
